@@ -44,9 +44,9 @@ pub fn sources(dir: bool, rng: &mut Rng) -> String {
 
 pub fn plan(tier: &str, seed: u64) -> Vec<Batch> {
     let (n, race) = match tier {
-        "thorough" => (40, 40),
+        "thorough" => (200, 200),
         "dev" => (1, 1),
-        _ => (5, 4),
+        _ => (20, 20),
     };
     let mut v = Vec::new();
     let mut unis = vec![UniCfg::k(), UniCfg::e()];
